@@ -33,6 +33,7 @@ EXPECTED_COUNTERS = ['probe:with_communicator', 'probe:listener_failed_in_notifi
 KINDS = ['pause', 'play', 'kill', 'resume']
 KINDS_WITH_FAIL = KINDS + ['fail']
 PROGRAM_CFG = {
+    'uncopyable_outputs': True,
     'future_results': True,
     'max_steps': 4,
     'rets': ['value', 'value', 'stop', 'unsuccessful', 'kill', 'raise'],
